@@ -11,7 +11,8 @@ import time
 from fractions import Fraction
 
 VERIF = os.path.dirname(os.path.dirname(os.path.abspath(__file__)))
-COQ = os.path.join(VERIF, 'coq')
+COQ = os.environ.get('VERIF_COQ') or os.path.join(VERIF, 'coq')
+OUT = os.environ.get('VERIF_OUT') or VERIF   # evidence/ and replays/ live here (overridden for isolated mutant runs)
 REPO = os.environ.get('VERIF_REPO', '/repo')
 PY = '/venv/bin/python'
 
